@@ -83,6 +83,13 @@ def syntax_faults(r):
         ("syntax-stray-closer", ok() + [")"]),
         ("syntax-missing-field-value", ["{", "a", "=", "}"]),
         ("syntax-bad-selector", ok()[:1] + [".", "+"]),
+        # run-on: the closer AND the `;` are missing, so the parser only notices at the first token of the next statement
+        # (or at the end of the input); the diagnostic still has to point into the statement that lacks them
+        ("syntax-run-on-unclosed-list", ["["] + ok() + [","] + ok()),
+        ("syntax-run-on-unclosed-tuple", ["{", "a", "="] + ok() + [",", "b", "="] + ok()),
+        ("syntax-run-on-unclosed-paren", ["("] + ok() + ["+"] + ok()),
+        ("syntax-run-on-unclosed-call", ["idf", "("] + ok()),
+        ("syntax-run-on-unclosed-select", ["select", "(", "\"k\"", ",", "0", ")", "=>", "{", "k", "="] + ok()),
     ]
 
 
@@ -136,6 +143,9 @@ def build_case(probe, r, nvalid, kind, ftoks, host, pos):
         valid.append([t for t in pr.toks if not isinstance(t, tuple)])
     valid = valid[:nvalid]
     fstmt, cstmt = host_tokens(host, "flt", ftoks, r)
+    if kind.startswith("syntax-run-on"):
+        assert host == "bare" and fstmt[-1] == ";"
+        fstmt = fstmt[:-1]
     pos = min(pos, len(valid))
     seq = prelude + valid[:pos] + [fstmt] + valid[pos:]
     fidx = len(prelude) + pos
@@ -238,6 +248,8 @@ def task(args):
                 kind, ftoks = r.choice(syn)
                 issyn = True
             host = r.choice(HOSTS)
+            if kind.startswith("syntax-run-on"):
+                host = "bare"
             if issyn and host == "function-body":
                 cstmt_needed = False
             nvalid = r.randint(1, 10)
